@@ -11,6 +11,7 @@ SEPS = [
     (' ', ';esyll', ';eword'), ('_', ';esyll', ';eword'), (' ', None, ';eword'), ('_', None, ';eword'),
     ('/', '=', '@@'), ('·', '‖', '§§'), (' ', '_', ';eword'), ('_', '=', ';e w'), ('_', None, '<w>'),
     (';p', ';s', ';w'), (';p', None, ';w'),      # a multi-character phone separator
+    ('_', ' ', ';eword'), ('_', '= s', ';eword'), ('_ _', '=', ';eword'),      # spaces inside the syllable / phone separator (compact tagging only)
 ]
 # phones made of the LETTERS of the separators above (a separator is a string, not a set of characters)
 sl.PHONES['sepchars'] = ['p', 's', 'w', 'pʰ', 'ap', 'h', 'wa']
@@ -119,6 +120,8 @@ def main():
         if not all(sl.tree_ok(t, sep) for t in trees):
             continue
         styles = ['compact', 'padded'] + (['fullpad'] if sep[0] not in (None, ' ') else [])
+        if any(x and ' ' in x and x != ' ' for x in sep[:2]) or sep[1] == ' ':
+            styles = ['compact']          # a separator with spaces cannot be told from padding
         for st in styles:
             cases.extend(tree_cases(rng, trees, sep, st, 'trees-%s-%s' % (fam, st)))
     # outside the quantifier (correspondence only): undefined phone/word level, syllable level without syllables
@@ -137,7 +140,7 @@ def main():
         rule='%d draws of 1-5 random word/syllable/phone trees x %d separator triples (syllable optionally undefined, phone separator space or not, multi-character and non-ASCII, word separator with an inner space) '
              'x compact/padded tagging x interleaved blank lines and trailing newlines, through prepare(phone), prepare(syllable) and gold; oracle: the three views recomputed from the trees. '
              'Every case is non-trivial (distinct tree/separator/view).' % (n, len(SEPS)),
-        assumptions=['the word separator has no leading/trailing whitespace (prepare strips each line before checking its end)', 'the syllable separator is not a single space (prepare removes spaces at syllable level)'])
+        assumptions=['the word separator has no leading/trailing whitespace (prepare strips each line before checking its end)'])
 
 
 if __name__ == '__main__':
